@@ -1,17 +1,17 @@
-\* MC_MxIOSpec_thorough.cfg2
+\* two models, one name, one location, two values: the COMPLETE reachable state space (histories of any length)
 CONSTANTS
   Models = {"M1", "M2"}
   BaseInit = {"M1"}
-  Names = {"x", "y"}
-  CsvLocs = {"p.csv", "q.csv"}
+  Names = {"x"}
+  CsvLocs = {"p.csv"}
   ModLocs = {}
   PVals = {1, 2}
   MVals = {}
   WithDelSpace = FALSE
-  ExploreTainted = FALSE
-  MaxOps = 4
+  OpenFindings = {"KF:C18.update-merges-specs"}
+  MaxOps = 99
   Dump = TRUE
-VIEW View
+VIEW ViewU
 INIT Init
 NEXT Next
 INVARIANT Inv_C18_SpecsEqBoundValues
@@ -20,4 +20,5 @@ INVARIANT Inv_C18_LocationsUnique
 INVARIANT Inv_C18_RejectedLeavesNothing
 INVARIANT Inv_C18_SanityChecks
 INVARIANT Inv_C18_SavedSpecsRoundTrip
+INVARIANT Inv_NoRepairedFinding
 CHECK_DEADLOCK FALSE
